@@ -2,6 +2,11 @@
 syscall-wrapper inventory, constants."""
 import re
 
+from .facts import FE
+
+# field path of the payload of Ok(..): the variant hint keeps Err(..) payloads out of the answer
+OKP = (FE("0", "Ok"),)
+
 # ---- Linux constants used as references (x86_64 / generic values; the checker also reads the
 # values rustc evaluated for the crate's own constants and compares where both are available)
 O_ACCMODE = 0o3
